@@ -57,3 +57,30 @@ Definition check_warmup (tolc : Q * warm_case) : Z :=
         else if negb (close (toQc tol) (toQc il) l) then 8%Z else 0%Z
     end
   end.
+
+(* --- RewardScaler.__call__ on single-valued histories (variance 0): exact comparison --------------------
+   case = (norm?, eps = torch.finfo(dtype).eps, history of (batch, what the real __call__ returned)).
+   The abstract square root is instantiated by a function with sq 0 = 0 (the hypothesis of
+   C20_scaler_*_zero_variance); the check first verifies that the model's running variance IS 0, so no other
+   value of sq is ever used.  Steps after which count = 1 are not compared (0/0: nan in the float code). *)
+Definition sq_at_zero (x : Qc) : Qc := 0%Qc.
+Fixpoint qc_list_eqb (a : list Qc) (b : list Q) : bool :=
+  match a, b with
+  | [], [] => true
+  | x :: a', y :: b' => Qc_eq_bool x (toQc y) && qc_list_eqb a' b'
+  | _, _ => false
+  end.
+Fixpoint call_steps (norm : bool) (eps : Qc) (k : Z) (s : wstate QcF) (h : list (list Q * list Q)) : Z :=
+  match h with
+  | [] => 0%Z
+  | (b, out) :: rest =>
+      let r := if norm then w_call_norm (K:=QcF) sq_at_zero eps s (map toQc b)
+               else w_call_scale (K:=QcF) sq_at_zero eps s (map toQc b) in
+      let s' := fst r in
+      if Nat.leb (w_count s') 1 then call_steps norm eps (k + 1)%Z s' rest
+      else if negb (Qc_eq_bool (w_var s') 0%Qc) then (1000 * k + 9)%Z
+      else if negb (qc_list_eqb (snd r) out) then (1000 * k + 10)%Z
+      else call_steps norm eps (k + 1)%Z s' rest
+  end.
+Definition check_call_zero_var (c : bool * Q * list (list Q * list Q)) : Z :=
+  match c with (norm, eps, h) => call_steps norm (toQc eps) 1%Z (w_init (K:=QcF)) h end.
